@@ -5,6 +5,7 @@ package interp
 import (
 	"errors"
 	"fmt"
+	"go/token"
 	"go/types"
 	"reflect"
 	"strconv"
@@ -56,28 +57,54 @@ func interpretable(p string) bool {
 }
 
 var nativeFuncs = map[string]interface{}{
-	"strings.Contains":   strings.Contains,
-	"strings.HasPrefix":  strings.HasPrefix,
-	"strings.HasSuffix":  strings.HasSuffix,
-	"strings.Split":      strings.Split,
-	"strings.ReplaceAll": strings.ReplaceAll,
-	"strings.Replace":    strings.Replace,
-	"strings.TrimSpace":  strings.TrimSpace,
-	"strings.Trim":       strings.Trim,
-	"strings.ToLower":    strings.ToLower,
-	"strings.ToUpper":    strings.ToUpper,
-	"strings.Index":      strings.Index,
-	"strings.Join":       strings.Join,
-	"strings.Repeat":     strings.Repeat,
-	"strings.Count":      strings.Count,
-	"strings.EqualFold":  strings.EqualFold,
-	"strconv.Itoa":       strconv.Itoa,
-	"strconv.FormatInt":  strconv.FormatInt,
-	"strconv.FormatUint": strconv.FormatUint,
-	"strconv.Quote":      strconv.Quote,
+	"strings.Contains":    strings.Contains,
+	"strings.HasPrefix":   strings.HasPrefix,
+	"strings.HasSuffix":   strings.HasSuffix,
+	"strings.Split":       strings.Split,
+	"strings.ReplaceAll":  strings.ReplaceAll,
+	"strings.Replace":     strings.Replace,
+	"strings.TrimSpace":   strings.TrimSpace,
+	"strings.Trim":        strings.Trim,
+	"strings.ToLower":     strings.ToLower,
+	"strings.ToUpper":     strings.ToUpper,
+	"strings.Index":       strings.Index,
+	"strings.Join":        strings.Join,
+	"strings.Repeat":      strings.Repeat,
+	"strings.Count":       strings.Count,
+	"strings.EqualFold":   strings.EqualFold,
+	"strings.Fields":      strings.Fields,
+	"strings.TrimPrefix":  strings.TrimPrefix,
+	"strings.TrimSuffix":  strings.TrimSuffix,
+	"strings.TrimLeft":    strings.TrimLeft,
+	"strings.TrimRight":   strings.TrimRight,
+	"strings.SplitN":      strings.SplitN,
+	"strings.LastIndex":   strings.LastIndex,
+	"strings.ContainsAny": strings.ContainsAny,
+	"strings.IndexByte":   strings.IndexByte,
+	"strings.Title":       strings.Title,
+	"strings.Compare":     strings.Compare,
+	"strconv.FormatBool":  strconv.FormatBool,
+	"strconv.FormatFloat": strconv.FormatFloat,
+	"strconv.Itoa":        strconv.Itoa,
+	"strconv.FormatInt":   strconv.FormatInt,
+	"strconv.FormatUint":  strconv.FormatUint,
+	"strconv.Quote":       strconv.Quote,
 }
 
 func (i *interpreter) stub(name string) { i.stubs[name]++ }
+
+// textBuf is the content of a strings.Builder / bytes.Buffer identified by its address.
+func (i *interpreter) textBuf(p *value) *[]byte {
+	if i.bufs == nil {
+		i.bufs = map[*value]*[]byte{}
+	}
+	b, ok := i.bufs[p]
+	if !ok {
+		b = new([]byte)
+		i.bufs[p] = b
+	}
+	return b
+}
 
 func (i *interpreter) lookupExternal(fn *ssa.Function) (externalFn, bool) {
 	if e, ok := i.extCache[fn]; ok {
@@ -135,6 +162,109 @@ func (i *interpreter) resolveExternal(fn *ssa.Function) externalFn {
 			i.logEvent(fr.th, "lock", m.id, 0, m.name, fr)
 			return true
 		}
+	case "(*sync.RWMutex).RLock":
+		// read locks are modelled as exclusive: sound for "no rule starts before ..." style
+		// orders, and it only hides races between two readers, which are not races
+		return func(fr *frame, a []value) value { fr.i.mutexLock(fr, fr.nilCheck(a[0].(*value))); return nil }
+	case "(*sync.RWMutex).RUnlock":
+		return func(fr *frame, a []value) value { fr.i.mutexUnlock(fr, fr.nilCheck(a[0].(*value))); return nil }
+	case "sync/atomic.AddInt32", "sync/atomic.AddInt64", "sync/atomic.AddUint32", "sync/atomic.AddUint64":
+		return func(fr *frame, a []value) value {
+			p := fr.nilCheck(a[0].(*value))
+			fr.i.atomicEvent(fr, p, true)
+			*p = fr.i.binop(token.ADD, fn.Signature.Params().At(1).Type(), *p, a[1])
+			return *p
+		}
+	case "sync/atomic.LoadInt32", "sync/atomic.LoadInt64", "sync/atomic.LoadUint32", "sync/atomic.LoadUint64":
+		return func(fr *frame, a []value) value {
+			p := fr.nilCheck(a[0].(*value))
+			fr.i.atomicEvent(fr, p, false)
+			return *p
+		}
+	case "sync/atomic.StoreInt32", "sync/atomic.StoreInt64", "sync/atomic.StoreUint32", "sync/atomic.StoreUint64":
+		return func(fr *frame, a []value) value {
+			p := fr.nilCheck(a[0].(*value))
+			fr.i.atomicEvent(fr, p, true)
+			*p = a[1]
+			return nil
+		}
+	case "sync/atomic.CompareAndSwapInt32", "sync/atomic.CompareAndSwapInt64", "sync/atomic.CompareAndSwapUint32", "sync/atomic.CompareAndSwapUint64":
+		return func(fr *frame, a []value) value {
+			p := fr.nilCheck(a[0].(*value))
+			fr.i.atomicEvent(fr, p, true)
+			eq := fr.i.binop(token.EQL, fn.Signature.Params().At(1).Type(), *p, a[1])
+			var same bool
+			if s, ok := eq.(sym); ok {
+				same = fr.i.branch(s.T)
+			} else {
+				same = eq.(bool)
+			}
+			if same {
+				*p = a[2]
+			}
+			return same
+		}
+	case "(*strings.Builder).WriteString", "(*bytes.Buffer).WriteString":
+		return func(fr *frame, a []value) value {
+			s, ok := a[1].(string)
+			if !ok {
+				panic(unsupported{"symbolic string written to a builder"})
+			}
+			b := fr.i.textBuf(fr.nilCheck(a[0].(*value)))
+			*b = append(*b, s...)
+			return tuple{len(s), iface{}}
+		}
+	case "(*strings.Builder).WriteByte", "(*bytes.Buffer).WriteByte":
+		return func(fr *frame, a []value) value {
+			b := fr.i.textBuf(fr.nilCheck(a[0].(*value)))
+			*b = append(*b, a[1].(byte))
+			return iface{}
+		}
+	case "(*strings.Builder).WriteRune", "(*bytes.Buffer).WriteRune":
+		return func(fr *frame, a []value) value {
+			b := fr.i.textBuf(fr.nilCheck(a[0].(*value)))
+			s := string(a[1].(rune))
+			*b = append(*b, s...)
+			return tuple{len(s), iface{}}
+		}
+	case "(*strings.Builder).String", "(*bytes.Buffer).String":
+		return func(fr *frame, a []value) value {
+			p, _ := a[0].(*value)
+			if p == nil {
+				return "<nil>"
+			}
+			return string(*fr.i.textBuf(p))
+		}
+	case "(*strings.Builder).Len", "(*bytes.Buffer).Len":
+		return func(fr *frame, a []value) value { return len(*fr.i.textBuf(fr.nilCheck(a[0].(*value)))) }
+	case "(*strings.Builder).Reset", "(*bytes.Buffer).Reset":
+		return func(fr *frame, a []value) value { *fr.i.textBuf(fr.nilCheck(a[0].(*value))) = nil; return nil }
+	case "fmt.Fprintf", "fmt.Fprint", "fmt.Fprintln":
+		return func(fr *frame, a []value) value {
+			w := a[0].(iface)
+			p, ok := w.v.(*value)
+			if !ok || w.t == nil || !(strings.Contains(w.t.String(), "strings.Builder") || strings.Contains(w.t.String(), "bytes.Buffer")) {
+				fr.i.stub("fmt.Fprint* to a non-buffer writer: no-op")
+				return tuple{0, iface{}}
+			}
+			var s string
+			switch name {
+			case "fmt.Fprintf":
+				v := fr.i.sprintf(fr, a[1], a[2].([]value))
+				s, _ = v.(string)
+			case "fmt.Fprint":
+				s = fmt.Sprint(fr.i.nativeArgs(fr, a[1].([]value))...)
+			default:
+				s = fmt.Sprintln(fr.i.nativeArgs(fr, a[1].([]value))...)
+			}
+			b := fr.i.textBuf(p)
+			*b = append(*b, s...)
+			return tuple{len(s), iface{}}
+		}
+	case "time.Sleep":
+		return func(fr *frame, a []value) value { fr.i.stub("time.Sleep no-op"); return nil }
+	case "runtime.Gosched":
+		return func(fr *frame, a []value) value { return nil }
 	case "(*sync.Pool).Get":
 		// one legal behaviour of sync.Pool: last put first, New when empty
 		return func(fr *frame, a []value) value {
